@@ -45,7 +45,7 @@ func innerOfWrapper(f interface{}) string {
 func GenAdd[T int | int64](a, b T) T { return a + b + T(len(fmt.Sprint(a))) }
 
 func init() {
-	zoo["Generic"] = kase{extra: func() string { return innerOfWrapper(GenAdd[int]) }, fns: []interface{}{GenAdd[int]}, plain: func() string { return fmt.Sprint(GenAdd[int](20, 22)) },
+	zoo["Generic"] = kase{fns: []interface{}{GenAdd[int]}, plain: func() string { return fmt.Sprint(GenAdd[int](20, 22)) },
 		install: func(cnt *int32) (func() string, interface{}, func()) {
 			origin := func(a, b int) int {
 				fmt.Println("only for placeholder, will not call", a, b)
@@ -59,5 +59,23 @@ func init() {
 				return origin(a, b)
 			})
 			return func() string { return fmt.Sprint(GenAdd[int](20, 22)) }, GenAdd[int], func() { m.Reset() }
+		}}
+	// a generic target mocked WITHOUT an origin placeholder: the callback must run with exactly the caller's arguments (since
+	// 79126f8 an adapter consumes the hidden dictionary word); the observation also carries goom's choice of the shape body
+	zoo["GenericPlain"] = kase{extra: func() string { return innerOfWrapper(GenAdd[int]) }, fns: []interface{}{GenAdd[int]},
+		plain: func() string { return fmt.Sprint(GenAdd[int](20, 22)) },
+		install: func(cnt *int32) (func() string, interface{}, func()) {
+			want := fmt.Sprint(GenAdd[int](20, 22))
+			m := goom.Create()
+			m.Func(GenAdd[int]).Apply(func(a, b int) int {
+				atomic.AddInt32(cnt, 1)
+				return a*1000 + b
+			})
+			return func() string {
+				if r := GenAdd[int](20, 22); r != 20*1000+22 {
+					return fmt.Sprint("callback-saw-other-arguments:", r)
+				}
+				return want
+			}, GenAdd[int], func() { m.Reset() }
 		}}
 }
